@@ -34,8 +34,8 @@ func c11BlsFor[K bls.KeyGroup](name string) []sched.Scenario {
 		return bls.Verify(k.PublicKey(), []byte("msg2"), bls.Sign(k, []byte("msg2")))
 	}
 	return []sched.Scenario{
-		{Cost: 300, Name: "bls/" + name + "/PublicKey||PublicKey", Setup: fresh, Threads: []func(interface{}) interface{}{pub, pub}},
-		{Cost: 300, Name: "bls/" + name + "/PublicKey||Sign||SignVerify", Setup: fresh, Threads: []func(interface{}) interface{}{pub, sign, signVerify}},
+		{Cost: 500, Name: "bls/" + name + "/PublicKey||PublicKey", Setup: fresh, Threads: []func(interface{}) interface{}{pub, pub}},
+		{Cost: 500, Name: "bls/" + name + "/PublicKey||Sign||SignVerify", Setup: fresh, Threads: []func(interface{}) interface{}{pub, sign, signVerify}},
 	}
 }
 
